@@ -24,6 +24,7 @@ type Job struct {
 	GC            bool      `json:"gc,omitempty"`    // empty the sync.Pools first
 	ToGoHTML      bool      `json:"to_go_html,omitempty"`
 	B64           bool      `json:"b64,omitempty"` // Args.S1, S2, XS are base64 (byte-exact transport)
+	Overlap       bool      `json:"overlap,omitempty"` // two renders of the program overlap on one processor (see the runner)
 }
 
 // Bytes returns a job without faults whose string arguments reach the program byte for byte
@@ -46,6 +47,9 @@ func Plain(k int, a tgen.Args) Job { return Job{K: k, Args: a, WriterFailAt: -1,
 
 type Result struct {
 	Out           []byte   `json:"out"`
+	Out2          []byte   `json:"out2,omitempty"`
+	Ref1          []byte   `json:"ref1,omitempty"`
+	Ref2          []byte   `json:"ref2,omitempty"`
 	Err           string   `json:"err"`
 	Boom          bool     `json:"boom"`
 	WriterErr     bool     `json:"writer_err"`
